@@ -155,11 +155,15 @@ def literals(test, positive=True):
             for v in test.values:
                 out += literals(v, positive)
             return out
-        def par(v, text):
-            return f"({text})" if isinstance(v, ast.BoolOp) else text
-        if positive:      # a disjunction: one literal, operands in text order
-            return [" or ".join(sorted(par(v, " and ".join(literals(v, True))) if len(literals(v, True)) > 1 else literals(v, True)[0] for v in test.values))]
-        return ["not (" + " and ".join(sorted(par(v, norm(v)) for v in test.values)) + ")"]
+        # a disjunction (an `or`, or a negated `and`): ONE literal, in one of two spellings chosen by content only --
+        # `a or b` (disjuncts in text order) or, when most disjuncts are negations, `not (x and y)`
+        def conj(ls):
+            return ls[0] if len(ls) == 1 else "(" + " and ".join(sorted(ls)) + ")"
+        pos_ = [conj(literals(v, positive)) for v in test.values]
+        neg_ = [conj(literals(v, not positive)) for v in test.values]
+        if sum(1 for x in pos_ if x.startswith("not ")) * 2 > len(pos_):
+            return ["not (" + " and ".join(sorted(x[1:-1] if x.startswith("(") and x.endswith(")") and x.count("(") == 1 else x for x in neg_)) + ")"]
+        return [" or ".join(sorted(pos_))]
     if isinstance(test, ast.Compare) and len(test.ops) == 1:
         if positive:
             return [norm(test)]
@@ -171,6 +175,11 @@ def literals(test, positive=True):
     if positive:
         return [t]
     return [f"not {t}" if isinstance(test, (ast.Name, ast.Attribute, ast.Call, ast.Subscript)) else f"not ({t})"]
+
+
+def lits(text, positive=True):
+    """literals() of a condition given as source text: how a rule states the condition it expects."""
+    return literals(ast.parse(text, mode="eval").body, positive)
 
 
 def fallthrough_conds(block, upto=None):
@@ -471,7 +480,7 @@ class _Split(ast.stmt):
     """One branch of a statement whose value is a conditional expression (see Facts): stands where the statement stands."""
     _fields = ()
 
-    def __init__(self, origin):
+    def __init__(self, origin=None):
         super().__init__()
         self.origin = origin
         self._parent = getattr(origin, "_parent", None)
@@ -525,7 +534,23 @@ def decision_list(fn):
         return False
     if not block(fn.body, []):
         entries.append(([], ast.Constant(None)))
-    return entries, impure
+    # a row whose test is a disjunction is one row per disjunct (same result, first match unchanged)
+    out = []
+    for tests, v in entries:
+        alts = [[]]
+        for t0, pos0 in tests:
+            t, pos = t0, pos0
+            while isinstance(t, ast.UnaryOp) and isinstance(t.op, ast.Not):
+                t, pos = t.operand, not pos
+            if pos0 and isinstance(t, ast.BoolOp) and isinstance(t.op, ast.Or) == pos:      # the row's own test `a or b` / `not (a and b)`; negations inherited from an else-branch stay whole
+                alts = [a + [(d, pos)] for d in t.values for a in alts]
+            else:
+                alts = [a + [(t0, pos0)] for a in alts]
+        if len(alts) > 8:
+            alts = [list(tests)]
+        # keep the source order of the disjuncts of the first disjunction
+        out += [(a, v) for a in alts]
+    return out, impure
 
 
 def split_tests(tests):
